@@ -254,7 +254,17 @@ func (g *vGen) apl(x *APL) {
 			}
 			neg := g.dU8()&1 == 1
 			full := make([]byte, alen)
-			ab := g.octets(sig, false)
+			var ab []byte
+			if g.ints != 0 {
+				// fixed addresses where the record is printed (printing symbolic addresses forks per digit)
+				pat := []byte{0x20, 0x01, 0x0d, 0xb8, 0x85, 0xa3, 0x11, 0x12, 0x13, 0x70, 0x73, 0x34, 0x09, 0x0a, 0x0b, 0x01}
+				if fam == 1 {
+					pat = []byte{192, 168, 0xF2, 0x81}
+				}
+				ab = append([]byte{}, pat[:sig]...)
+			} else {
+				ab = g.octets(sig, false)
+			}
 			if sig > 0 {
 				if sig == maxSig && prefix%8 != 0 {
 					ab[sig-1] &= byte(0xFF << (8 - uint(prefix%8)))
